@@ -171,6 +171,59 @@ let run_leaf toks =
                   let es = List.sort compare (List.map (fun (sp, i) -> (Zr.to_int sp, Zr.to_int i, k)) l) in
                   " " ^ string_of_int k ^ ":" ^ String.concat ";" (List.map (fun (a, b, c) -> Printf.sprintf "%d,%d,%d" a b c) es)) b' in
             String.concat "" (List.map seg cls) ^ "size=" ^ string_of_int (List.length b') ^ String.concat "" lists))
+  | ["kernel3"; l1; kb; a; b] ->
+      (* the three-algorithm model kernel (Model/Erat3M.sieve_loop3: sieving primes >= 164 dispatched to EratSmall / EratMedium /
+         EratBig by the thresholds of the geometry model, EratBig's log2 = ilog2 of the sieve size) on [a, b], a >= 7; the
+         pre-sieve is applied here as its specification (prime, or > 163 without a prime factor in 7..163): count of the
+         surviving numbers in [a, b], their sum mod 2^61-1, first, last, then how many sieving primes each algorithm got *)
+      let stop = z b and start = z a in
+      let g = initAlgorithms (z l1) (z kb) start stop in
+      (match segments (nat_of_int 5001) (z l1) (z kb) start stop with
+       | None -> "fuel"
+       | Some segs ->
+         let ks = List.map (fun sg -> { k_low = sg.s_low; k_size = sg.s_bytes; k_high = sg.s_high }) segs in
+         let maxsize = List.fold_left (fun m sg -> max m (Zr.to_int sg.s_bytes)) 0 segs in
+         let sq = Zr.sqrt stop in
+         (* the sieving primes 164 <= p <= sqrt(stop) (the extracted primes_between is quadratic: a plain sieve here) *)
+         let nsq = Zr.to_int sq in
+         let comp = Bytes.make (nsq + 1) '\000' in
+         let pend = ref [] in
+         for i = 2 to nsq do
+           if Bytes.get comp i = '\000' then begin
+             if i >= 164 then pend := Zr.of_int i :: !pend;
+             let j = ref (i * i) in while !j <= nsq do Bytes.set comp !j '\001'; j := !j + i done end
+         done;
+         let pend = List.rev !pend in
+         let lg = Zr.of_int (Zr.numbits g.a_sieveSize - 1) in
+         let nsmall = List.length (List.filter (fun p -> Zr.leq p g.a_maxSmall) pend) in
+         let nmed = List.length (List.filter (fun p -> Zr.gt p g.a_maxSmall && Zr.leq p g.a_maxMedium) pend) in
+         let nbig = List.length pend - nsmall - nmed in
+         let full = 1 lsl (Zr.to_int lg) in
+         (match sieve_loop3 (nat_of_int (2 * (max maxsize full) + 8 * List.length pend + 100)) stop g.a_maxSmall g.a_maxMedium lg ks pend e3_init with
+          | None -> "oob-or-fuel"
+          | Some res ->
+            let cnt = ref 0 and sum = ref Zr.zero and first = ref Zr.zero and last = ref Zr.zero in
+            let bvs = [| 7; 11; 13; 17; 19; 23; 29; 31 |] in
+            let smallp = List.filter (fun p -> is_prime (Zr.of_int p)) [7; 11; 13; 17; 19; 23; 29; 31; 37; 41; 43; 47; 53; 59; 61; 67; 71; 73; 79; 83; 89; 97; 101; 103; 107; 109; 113; 127; 131; 137; 139; 149; 151; 157; 163] in
+            let presieved n =
+              if Zr.leq n (Zr.of_int 163) then List.mem (Zr.to_int n) smallp
+              else List.for_all (fun p -> not (Zr.equal (Zr.rem n (Zr.of_int p)) Zr.zero)) smallp in
+            List.iter (fun (sg, cleared) ->
+              let tbl = Hashtbl.create 100000 in
+              List.iter (fun (bb, m) -> let k = Zr.to_int bb in
+                           let old = try Hashtbl.find tbl k with Not_found -> 255 in Hashtbl.replace tbl k (old land (Zr.to_int m))) cleared;
+              for j = 0 to Zr.to_int sg.k_size - 1 do
+                let byte = try Hashtbl.find tbl j with Not_found -> 255 in
+                for k = 0 to 7 do
+                  if byte land (1 lsl k) <> 0 then begin
+                    let n = Zr.add sg.k_low (Zr.of_int (30 * j + bvs.(k))) in
+                    if Zr.leq n sg.k_high && Zr.leq n stop && Zr.geq n start && presieved n then begin
+                      incr cnt; sum := Zr.rem (Zr.add !sum n) (Zr.of_string "2305843009213693951");
+                      if !cnt = 1 then first := n; last := n end end
+                done
+              done) res;
+            string_of_int !cnt ^ " " ^ pr !sum ^ " " ^ pr !first ^ " " ^ pr !last ^ " segs=" ^ string_of_int (List.length segs)
+            ^ " small=" ^ string_of_int nsmall ^ " medium=" ^ string_of_int nmed ^ " big=" ^ string_of_int nbig))
   | ["kernel"; l1; kb; a; b] ->
       (* the model kernel (segments of the geometry model, addSievingPrime, EratSmall cross-off over the extracted step table)
          on [a, b], a >= 7: number of surviving numbers in [a, b], their sum mod 2^61-1 and the first / last one.
